@@ -20,15 +20,17 @@ import os, sys, importlib.util, multiprocessing as mp, time, threading, concurre
 
 from ..common import SPEC, Scratch, rng, MachineryError
 from ..report import Report
-from .. import tlc, sched
+from .. import tlc, sched, blackbox
 
 RW_MC = os.path.join(SPEC, "MC_RWLock.tla")
 LT_MC = os.path.join(SPEC, "MC_LazyTable.tla")
 LT_TRACE = os.path.join(SPEC, "Trace_LazyTable.tla")
+ABS_MC = os.path.join(SPEC, "MC_RWLockAbs.tla")
+ABS_TRACE = os.path.join(SPEC, "Trace_RWLockAbs.tla")
 NPROC = 16
 
 
-def _rw_cfg(R, W, P, invariants="TypeOK Mutex ReleaseHeld CountersOK", props="Termination WriterPreference", spec="Spec", nxt=None):
+def _rw_cfg(R, W, P, invariants="TypeOK Mutex ReleaseHeld CountersOK", props="Termination WriterPreference RefinesAbstract", spec="Spec", nxt=None):
     s = "CONSTANTS R = %d  W = %d  Passes = %d\n" % (R, W, P)
     s += ("SPECIFICATION %s\n" % spec) if nxt is None else ("INIT Init\nNEXT %s\n" % nxt)
     if invariants:
@@ -59,6 +61,9 @@ def _all_tlc_runs(tier, wd):
             workers=8, deadlock=True, dump=os.path.join(iwd, "graph") if walk else None, timeout=1500,
             coverage=(R, W, P) == (2, 2, 1)))
     small = dict(workers=2, timeout=300)
+    absc = "CONSTANTS Readers = {1, 2}  Writers = {3, 4}\nSPECIFICATION Spec\n"
+    jobs["abs"] = (ABS_MC, absc + "INVARIANTS TypeOK Mutex\n", os.path.join(wd, "abs"), dict(small))
+    jobs["abs_share"] = (ABS_MC, absc + "INVARIANTS ReadersNeverShare\n", os.path.join(wd, "abs_share"), dict(small))
     jobs["rw_share"] = (RW_MC, _rw_cfg(2, 2, 1, invariants="ReadersNeverShare", props=""), os.path.join(wd, "rw_share"), dict(small, deadlock=True))
     jobs["rw_strong"] = (RW_MC, _rw_cfg(2, 2, 1, invariants="", props="StrongWriterPreference"), os.path.join(wd, "rw_strong"), dict(small, deadlock=True))
     jobs["rw_bad1"] = (RW_MC, _rw_cfg(2, 2, 1, invariants="Mutex", props="", nxt="BadNextNoExcl"), os.path.join(wd, "rw_bad1"), dict(small))
@@ -152,57 +157,152 @@ MUTANTS = {
 }
 
 
-def _semantic_search(rep, m, what, data):
-    """exhaustive search of the REAL lock's own (small) state spaces for a deadlock or an exception out of the lock code:
-    turns a difference from the specification into a concrete failing schedule.  Returns True if one was found."""
-    for (R, W) in ((1, 1), (0, 2), (2, 0), (2, 1), (1, 2)):
-        found = sched.find_deadlock(m, R, W, 1)
-        if found:
-            sch, proj = found
-            crashed = [th[1] for th in proj[3] if th[0] == "crashed"]
-            d = {"readers": R, "writers": W, "schedule_of_thread_ids": sch, "real_state": sched.describe(proj), "found_because": what}
-            data["failing_schedule"] = d
-            if crashed:
-                rep.violation("C20:rwlock-exception",
-                              "the real RWLock raises %s with %d reader(s) + %d writer(s) after the lock-level schedule %s "
-                              "(the specification: every acquire/release succeeds)" % (crashed[0], R, W, sch), d)
-            else:
-                rep.violation("C20:rwlock-deadlock",
-                              "the real RWLock deadlocks with %d reader(s) + %d writer(s) after the lock-level schedule %s "
-                              "(the specification has no deadlock)" % (R, W, sch), d)
-            return True
-    return False
+def _shape(rwmod):
+    """Is the real lock built the way the white-box refinement walk expects (RWLock.tla: five distinct plain locks
+    behind the known attributes, all made by the constructor, nothing else)?  Returns None or a description of the
+    difference.  A difference is NOT a finding: the lock clause of C20 is about observable behaviour only; the walk is
+    then replaced by the black-box exploration (harness/blackbox.py), which is judged against RWLockAbs."""
+    try:
+        probs = sched.structure_problems(rwmod)
+        if probs:
+            return "; ".join(probs[:3])
+        real = sched.RealRW(rwmod, 1, 1, 1)
+        try:
+            named = real._resolve()
+            made = list(real.sched.locks)
+            unc = sorted(getattr(rwmod.threading, "uncontrolled", ()))
+        finally:
+            real.close(abandon=True)
+    except (sched.StructureDiffers, MachineryError, AttributeError, TypeError) as e:
+        return str(e)
+    late = [n for n, o in named.items() if o is None]
+    if late:
+        return "no lock behind %s after construction" % ", ".join(late)
+    kinds = sorted({o.kind for o in named.values()} - {"Lock"})
+    if kinds:
+        return "uses %s where the model has plain locks" % ", ".join(kinds)
+    if len(made) != 5 or len({id(o) for o in named.values()}) != 5:
+        return "the constructor makes %d synchronisation objects, the model has 5" % len(made)
+    if unc:
+        return "uses threading.%s" % ", threading.".join(unc)
+    return None
 
 
-def _structure_check(rep, rwmod):
-    """The specification has five distinct locks per RWLock and nothing shared between two RWLocks.  A real lock
-    built differently is a difference between code and specification (a VIOLATION, not a tool failure): shared lock
-    objects, or a synchronisation primitive other than Lock/RLock.  The walk is then replaced by a search for a deadlock
-    or an exception on the module (a private copy loaded under the lock factory if locks are made when it is loaded).
-    Locks that are allocated later than the constructor are fine here: the walk schedules their creation."""
-    probs = sched.structure_problems(rwmod)
-    installable = True
+def _bb_task(task):
+    path, R, W, P, label, budget = task
     try:
-        sched.RealRW(rwmod, 1, 1, 1).close(abandon=True)
-    except sched.StructureDiffers as e:
-        installable = False
-        if "not made through" in str(e) and not probs:
-            # distinct per-instance locks that merely do not come from `threading.<name>` of the module: cannot be observed
-            raise MachineryError("the lock factory cannot be installed: %s" % e)
-        if "not made through" not in str(e):
-            probs.append(str(e))
-    if not probs:
-        return True
-    data = {"differences": probs, "specification": "five distinct threading.Lock objects per RWLock (rq, nr, nw, rm, wm), none shared"}
-    try:
-        m = rwmod if installable else sched.load_under_factory(rwmod.__file__, "c20_rwlock_private_copy")
-        _semantic_search(rep, m, "structure differs", data)
-    except (MachineryError, sched.StructureDiffers) as e:
-        data["search"] = "not possible: %s" % e
-    rep.violation("C20:rwlock-structure-differs",
-                  "the synchronisation objects of the real RWLock are not the five distinct per-instance locks of the specification: "
-                  + "; ".join(probs[:4]), data)
-    return False
+        r = blackbox.explore(path, R, W, P, budget_s=budget)
+    except MachineryError as e:
+        return {"label": label, "machinery": str(e)}
+    except Exception as e:      # the private copy cannot be loaded / constructed under the lock factory
+        return {"label": label, "unloadable": "%s: %s" % (type(e).__name__, e), "mix": "%dR+%dW x %d" % (R, W, P), "R": R, "W": W}
+    r["label"] = label
+    r["uncontrolled"] = sorted(r["uncontrolled"])
+    return r
+
+
+BB_SELFTEST = {     # label: (mutant of the real source, mix, verdict TLC must reach)
+    "selftest: writer does not take no_writers": (("        self.__no_writers.acquire()\n", ""), (1, 1, 1), "mutex"),
+    "selftest: reader keeps readers_queue": (("        self.__readers_queue.release()\n", ""), (2, 1, 1), "deadlock"),
+}
+
+
+def _blackbox(rep, tier, wd, rwmod, why):
+    """black-box exploration of the real lock + self-tests, judged by TLC (Trace_RWLockAbs).  `why`: None (the structure
+    is the expected one: the exploration is additional evidence) or the difference that made the walk impossible."""
+    path = rwmod.__file__
+    thorough = tier == "thorough"
+    mixes = [(2, 1, 1), (1, 2, 1)] + ([(2, 2, 1), (2, 1, 2), (1, 2, 2)] if thorough else [])
+    budget = 900.0 if thorough else 240.0
+    tasks = [(path, R, W, P, "real", budget) for (R, W, P) in mixes]
+    src = open(path).read()
+    st_skipped = []
+    for i, (label, ((a, b), (R, W, P), want)) in enumerate(BB_SELFTEST.items()):
+        if src.count(a) != 1:
+            st_skipped.append(label)
+            continue
+        pth = os.path.join(wd, "rwlock_bb_mutant_%d.py" % i)
+        with open(pth, "w") as f:
+            f.write(src.replace(a, b))
+        tasks.append((pth, R, W, P, label, 120.0))
+    outs = _pmap(_bb_task, tasks, 1, "black-box exploration of the lock")
+    evs, tid, meta, summary, fallback = [], 0, {}, {}, []
+    for o in outs:
+        if "machinery" in o:
+            raise MachineryError("black-box exploration: " + o["machinery"])
+        if "unloadable" in o or o.get("uncontrolled"):
+            if o["label"] != "real":
+                raise MachineryError("black-box self-test could not be run: %s" % (o.get("unloadable") or o["uncontrolled"]))
+            # something the controlled scheduler cannot drive: real pre-emptive threads, bounded waits (randomised)
+            r = blackbox.real_thread_runs(rwmod, o["R"], o["W"], 1, 1500 if thorough else 250, seed=hash(o["mix"]) & 0xffff)
+            r["label"] = "real"
+            r["uncontrolled"] = [o.get("unloadable") or ", ".join(o["uncontrolled"])]
+            fallback.append(o["mix"])
+            o = r
+        e = blackbox.events(o, tid)
+        tid = e[-1]["tid"]
+        for x in e:
+            meta[x["tid"]] = (o["label"], x)
+        evs += e
+        summary.setdefault(o["label"], {})[o["mix"]] = {
+            "states": o["states"], "transitions": o["transitions"], "schedules_replayed": o["runs"], "observable_steps": len(o["steps"]),
+            "deadlock_states": len(o["deadlocks"]), "exceptions": len(o["exceptions"]), "max_readers_together": o["max_readers"],
+            "exhaustive": bool(o["complete"]), "wall_s": o.get("wall_s", 0)}
+    # canary: one corrupted observation
+    good = [x for x in evs if meta[x["tid"]][0] == "real" and x["op"] == "acquire_r" and not x["wr1"]]
+    canary = None
+    if good:
+        tid += 1
+        canary = dict(good[0], tid=tid, wr2=[good[0]["nr"] + 1], _schedule=[])
+        evs.append(canary)
+    rej, st = tlc.validate_trace(ABS_TRACE, "INIT Init\nNEXT Next\n", evs, os.path.join(wd, "tr_abs"), shards=8, timeout=600)
+    by = {}
+    for x in rej:
+        by.setdefault(x[1], x[2])
+    found = {}
+    for t, clause in by.items():
+        if canary is not None and t == canary["tid"]:
+            continue
+        label, x = meta[t]
+        if label == "real":
+            found.setdefault(clause, []).append(x)
+    for clause, xs in sorted(found.items()):
+        x = xs[0]
+        if clause == "mutex":
+            what = ("%s by thread %d: holders before = readers %s writers %s, after = readers %s writers %s"
+                    % (x["op"], x["t"], x["rd1"], x["wr1"], x["rd2"], x["wr2"]))
+        elif clause == "readers-never-share":
+            what = "in no reachable state two readers hold the lock together"
+        else:
+            what = x.get("_detail", "")
+        rep.violation("C20:rwlock-" + clause,
+                      "real RWLock, %s, after the schedule (thread ids, one primitive operation each) %s: %s (%d such observation(s))"
+                      % (x["mix"], x["_schedule"], what, len(xs)), x)
+    if not found and not rep.violations:
+        # self-tests of the machinery: only judged when the run is otherwise clean
+        if canary is not None and by.get(canary["tid"]) != "mutex":
+            raise MachineryError("binding self-test: corrupted lock observation was not rejected")
+        for label, (_, _, want) in BB_SELFTEST.items():
+            if label in st_skipped:
+                continue
+            got = {by[t] for t, (l, _) in meta.items() if l == label and t in by}
+            if want not in got:
+                raise MachineryError("%s: black-box exploration + Trace_RWLockAbs did not report %s (got %s)" % (label, want, sorted(got)))
+    real = summary.get("real", {})
+    rep.cov["parts"]["rwlock"] = {
+        "structure": ("as in RWLock.tla: white-box refinement walk" if why is None
+                      else "differs: %s; refinement walk replaced by black-box exploration" % why),
+        "blackbox": {"mixes": real, "selftests": {k: v for k, v in summary.items() if k != "real"}, "selftests_not_applicable": st_skipped,
+                     "real_thread_fallback_for": fallback,
+                     "judged": "every distinct observable step (who holds the lock before/after), every deadlock state, every "
+                               "exception, reader overlap: by TLC against RWLockAbs (Trace_RWLockAbs)"}}
+    n = len([x for x in evs if meta.get(x["tid"], ("",))[0] == "real"])
+    rep.add_trace("Trace_RWLockAbs (black-box exploration of the real lock: all interleavings at primitive-operation granularity)",
+                  dict(st, real_states=sum(v["states"] for v in real.values()), real_transitions=sum(v["transitions"] for v in real.values())), n)
+    first = [x for x in evs if meta.get(x["tid"], ("",))[0] == "real" and x["op"] == "acquire_w"][:1]
+    for x in first:
+        rep.sample({k: v for k, v in x.items() if k != "tid"})
+    return sum(v["transitions"] for v in real.values())
 
 
 def _rwlock_part(rep, tier, wd, J):
@@ -210,7 +310,8 @@ def _rwlock_part(rep, tier, wd, J):
     instances = _instances(tier)
     total_edges = 0
     first = None
-    structure_ok = _structure_check(rep, rwmod)
+    why = _shape(rwmod)             # None: the structure the refinement walk expects
+    structure_ok = why is None
     for (R, W, P, walk) in instances:
         tag = "%dR+%dW x %d pass%s" % (R, W, P, "es" if P > 1 else "")
         iwd = os.path.join(wd, "rw_%d%d%d" % (R, W, P))
@@ -224,7 +325,7 @@ def _rwlock_part(rep, tier, wd, J):
                               {"instance": [R, W, P], "trace": [[a, {k: str(x) for k, x in s.items()}] for a, s in tr][-60:]})
         elif not res.ok:
             raise MachineryError("TLC failed on MC_RWLock %s:\n%s" % (tag, res.clean()[-3000:]))
-        rep.add_mc("MC_RWLock %s: TypeOK, Mutex, ReleaseHeld, CountersOK, no deadlock, Termination (WF), WriterPreference" % tag,
+        rep.add_mc("MC_RWLock %s: TypeOK, Mutex, ReleaseHeld, CountersOK, no deadlock, Termination (WF), WriterPreference, refines RWLockAbs" % tag,
                    res, {"R": R, "W": W, "Passes": P})
         if first is None:
             first = res
@@ -245,18 +346,15 @@ def _rwlock_part(rep, tier, wd, J):
             raise MachineryError("state graph dump has %d states, TLC found %d" % (len(g.nodes), res.distinct))
         paths = sched.plan_paths(g)
         covered, steps, runs, mism, wall = _walk_all(g, info, (R, W, P), paths, iwd)
-        for m in mism[:3]:
-            rep.violation("C20:rwlock-state-mismatch",
-                          "real RWLock (%s) differs from the specification state after schedule of %d lock-level steps"
-                          % (tag, len(m["schedule"])), dict(m, instance=[R, W, P]))
+        if mism:
+            # Not a finding by itself (the lock clause is about observable behaviour): the lock-operation level behaviour is
+            # not the one of RWLock.tla; the black-box exploration below decides.
+            m = mism[0]
+            why = "lock-operation level behaviour is not that of RWLock.tla (%s, after the schedule %s: expected %s, real %s)" % (
+                tag, m["schedule"], m["expected"], m["real"])
+            structure_ok = False
         if not mism and len(covered) != len(g.edges):
             raise MachineryError("edge walk covered %d of %d edges" % (len(covered), len(g.edges)))
-        if mism and not getattr(rep, "_c20_searched", False):
-            rep._c20_searched = True
-            try:
-                _semantic_search(rep, rwmod, "state mismatch in the walk", {})
-            except (MachineryError, sched.StructureDiffers):
-                pass
         total_edges += len(covered)
         rep.add_replay("RWLock bisimulation walk %s: every edge of TLC's state graph on the real RWLock" % tag, len(covered),
                        {"states": len(g.nodes), "edges": len(g.edges), "edges_walked": len(covered), "schedules_run": runs,
@@ -268,6 +366,13 @@ def _rwlock_part(rep, tier, wd, J):
                         "spec_state_after": {k: str(v) for k, v in g.nodes[g.out[p0[-1][0]][p0[-1][1]][2]].items()}})
             if not mism and not rep.violations:      # self-tests of the machinery: only when the run is otherwise clean
                 _walk_selftests(rep, g, info, paths, rwmod, wd)
+
+    # ---- black-box exploration of the real lock, judged against the abstract reader-writer lock
+    bb_transitions = _blackbox(rep, tier, wd, rwmod, why)
+    r = tlc.require_ok(J["abs"], "MC_RWLockAbs")
+    rep.add_mc("MC_RWLockAbs 2 readers + 2 writers: Mutex (RWLock.tla refines it: property RefinesAbstract of every MC_RWLock run)", r)
+    if "ReadersNeverShare" not in J["abs_share"].violated:
+        raise MachineryError("self-test: RWLockAbs does not let readers share")
 
     # ---- readers do share: the invariant "never two readers inside" must be violated
     r = J["rw_share"]
@@ -296,7 +401,7 @@ def _rwlock_part(rep, tier, wd, J):
     if "<deadlock>" not in r.violated:
         raise MachineryError("self-test: reader that keeps readers_queue was not refuted (deadlock)")
     rep.cov["parts"]["selftest RWLock spec variants"] = "BadNextNoExcl refuted (Mutex), BadNextNoQueueRel refuted (deadlock)"
-    return total_edges
+    return total_edges + bb_transitions
 
 
 def _walk_selftests(rep, g, info, paths, rwmod, wd):
@@ -1175,6 +1280,23 @@ def replay(path):
         same = got == json.loads(json.dumps(data["expected"], default=list))
         print("REPRODUCED" if not same else "not reproduced (real state equals the expected state now)")
         return 0 if same else 1
+    if "_schedule" in data and "nr" in data:
+        run = blackbox.BlackRW(_real_rwmod().__file__, data["nr"], data["nw"], 1)
+        try:
+            trace = []
+            for t in data["_schedule"]:
+                if isinstance(t, int):
+                    run.step(t)
+                    trace.append((t, run.holders()))
+            st = run.status()
+        finally:
+            run.close()
+        print("schedule:", data["_schedule"])
+        print("holders (readers, writers) after each step:", trace[-6:])
+        print("state after it:", st)
+        bad = st[0] in ("deadlock", "exception") or any(len(w) > 1 or (w and r) for _, (r, w) in trace)
+        print("REPRODUCED" if bad else "not reproduced")
+        return 1 if bad else 0
     if "idx" in data and "_curve" in data:
         op, deep = data["_gran"] == "opcode", bool(data.get("_deep"))
         K = _count_events(data["_curve"], data["mode"], op, deep)
